@@ -16,6 +16,8 @@ KIND_ERRORS = {
     'double_cart': 'get_cartesian_coords applied to a value that is already Cartesian',
     'kind_mix': 'values of different coordinate kinds are stacked into one array',
     'sq_mix': 'per-component squares are combined with squared lengths (a sum over the xyz axis is missing)',
+    'wrapped_reduce': 'wrapped positions are averaged/summed: the result jumps when atoms cross a cell face (depends on the origin)',
+    'unreduced_diff': 'a difference of wrapped positions is converted to Cartesian without minimum-image reduction',
     'cartsq_mean_xyz': 'squared components are averaged (not summed) over xyz',
 }
 
